@@ -25,11 +25,11 @@ PID = 'C10'
 LEVEL = 'exploration'
 BUDGET_S = {'quick': 42, 'thorough': 660}
 FLOORS = {
-    'quick': {'scenarios': 190, 'requests': 900, 'denied_checks': 400, 'no_upstream_for_denied_checks': 400,
-              'denied_layer_pixel_checks': 30, 'rejected_as_expected': 250, 'must_be_clear_pixels': 7000000,
-              'must_keep_pixels': 2500000, 'limited_map_checks': 160, 'limited_tile_checks': 120, 'featureinfo_inside': 50,
-              'featureinfo_outside': 90, 'featureinfo_denied': 100, 'svc_wms_map': 330, 'svc_wms_fi': 140,
-              'family_tms': 130, 'family_wmts': 85, 'family_kml': 90, 'svc_wmts_fi_kvp': 45, 'svc_wmts_fi_rest': 40},
+    'quick': {'scenarios': 570, 'requests': 2700, 'denied_checks': 1200, 'no_upstream_for_denied_checks': 1200,
+              'denied_layer_pixel_checks': 90, 'rejected_as_expected': 750, 'must_be_clear_pixels': 21000000,
+              'must_keep_pixels': 7500000, 'limited_map_checks': 480, 'limited_tile_checks': 360, 'featureinfo_inside': 150,
+              'featureinfo_outside': 270, 'featureinfo_denied': 300, 'svc_wms_map': 990, 'svc_wms_fi': 420,
+              'family_tms': 390, 'family_wmts': 250, 'family_kml': 270, 'svc_wmts_fi_kvp': 130, 'svc_wmts_fi_rest': 120},
     'thorough': {'scenarios': 2600, 'requests': 21000, 'denied_checks': 9500, 'no_upstream_for_denied_checks': 9500,
                  'denied_layer_pixel_checks': 780, 'rejected_as_expected': 6000, 'must_be_clear_pixels': 160000000,
                  'must_keep_pixels': 54000000, 'limited_map_checks': 3500, 'limited_tile_checks': 2800,
